@@ -54,12 +54,18 @@ func (l *linter) Close() { l.p.Close() }
 // lint runs the real linter on the rendered pair and checks that the parser saw exactly
 // the structure of the model schemas (so the text is a faithful rendering).
 func (l *linter) lint(old, new Schema) (*lintResp, error) {
-	return lintWith(l.p, old, new)
+	return lintWith(l.p, old, new, true)
 }
 
-func lintWith(p *core.Proc, old, new Schema) (*lintResp, error) {
+// lintFast skips the generator front end (GenerateCode on both texts); used for the bulk of
+// deep edit sequences, whose single steps were each validated with lint.
+func (l *linter) lintFast(old, new Schema) (*lintResp, error) {
+	return lintWith(l.p, old, new, false)
+}
+
+func lintWith(p *core.Proc, old, new Schema, gen bool) (*lintResp, error) {
 	var r lintResp
-	if err := p.Call(map[string]any{"old": Render(old), "new": Render(new), "gen": true}, &r); err != nil {
+	if err := p.Call(map[string]any{"old": Render(old), "new": Render(new), "gen": gen}, &r); err != nil {
 		return nil, fmt.Errorf("linter driver: %v", err)
 	}
 	if r.Panic != "" {
@@ -88,7 +94,7 @@ func (l *linter) fresh(old, new Schema) (*lintResp, error) {
 		return nil, err
 	}
 	defer p.Close()
-	return lintWith(p, old, new)
+	return lintWith(p, old, new, true)
 }
 
 // ---------------------------------------------------------------------------
